@@ -231,6 +231,10 @@ class Gen:
         return r
 
     def ciphertext(self):
+        if self.p(0.15):
+            # a zero-length byte string is a byte string (a recipient with a direct key, RFC 9052), not "no ciphertext" (C03-p)
+            self.features.add("ciphertext:empty")
+            return ""
         return self.safe_bytes(1, 40).hex()
 
     def enc_info(self):
@@ -242,6 +246,12 @@ class Gen:
                                       "recipients": [self.recipient() for _ in range(self.r.randrange(0, 3))]}}
         if form == "full":
             return full
+        if self.p(0.25):
+            # an encryption info made elsewhere (embedded verbatim): a recipient with a zero-length byte string as ciphertext (direct key, RFC 9052) (C03-p)
+            self.features.add("encinfo:opaque-empty-ciphertext")
+            if not full["CoseEncryptTagged"]["recipients"]:
+                full["CoseEncryptTagged"]["recipients"] = [self.recipient(2)]
+            return ("@encinfo-" + form + "-emptyct", full)
         return ("@encinfo-" + form, full)
 
     def params(self, depth):
@@ -475,6 +485,24 @@ class Gen:
         return {"SUIT_Envelope_Tagged": e}
 
 
+def _empty_recipient_ciphertext(b: bytes) -> bytes:
+    """`b` = bstr .cbor COSE_Encrypt_Tagged as the tool wrote it; the same with the first recipient's ciphertext replaced by h'' (written by the
+    harness with cbor2, as a third-party producer would)"""
+    import cbor2
+    try:
+        outer = cbor2.loads(b)
+        wrapped = isinstance(outer, bytes)
+        t = cbor2.loads(outer) if wrapped else outer
+        items = [x for x in t.value]
+        recs = [list(r) for r in items[3]]
+        recs[0][2] = b""
+        items[3] = recs
+        enc = cbor2.dumps(cbor2.CBORTag(t.tag, items))
+        return cbor2.dumps(enc) if wrapped else enc
+    except Exception:  # noqa
+        return b
+
+
 def resolve(desc, create_fn, files, counter=None):
     """Replace the generator's placeholders - ('@envelope-file', sub), ('@encinfo-raw', full), ('@encinfo-file', full) - by
     real references: a child envelope / encryption info is created with `create_fn` (the real tool) and stored as a file or
@@ -493,6 +521,9 @@ def resolve(desc, create_fn, files, counter=None):
         if tag.startswith("@encinfo-"):
             # encode the full COSE_Encrypt description with the real tool, bstr-wrapped as encrypt writes it
             b = create_fn({"@encinfo": sub}, files)
+            if tag.endswith("-emptyct"):
+                b = _empty_recipient_ciphertext(b)
+                tag = tag[:-len("-emptyct")]
             if tag == "@encinfo-raw":
                 return {"raw": b.hex()}
             name = f"encinfo{counter[0]}.bin"
